@@ -121,7 +121,10 @@ def cases(tier, seed, shard, nshards):
         yield {"kind": "exitstack", "entries": entries, "body_raises": rng.random() < 0.6, "catch_enter": rng.random() < 0.5,
                # the SAME exit handler / manager object registered twice (two resources released by one function,
                # a reusable manager entered twice): two registrations, two runs - whatever the flavour
-               "dup": rng.random() < 0.35}
+               "dup": rng.random() < 0.35,
+               # managers whose exit is a staticmethod / classmethod (a class-level resource), callbacks registered
+               # without any arguments: the flavours still agree
+               "bind": rng.choice(["method", "method", "static", "class"]), "noargs": rng.random() < 0.3}
 
 
 def _vectors(nsrc, nfn, rng, maxvec):
@@ -250,6 +253,43 @@ def run_exitstack(case, stats):
             async def __aexit__(self, et, ev, tb):
                 return leave(et, ev, tb)
 
+        class SyncStatic:
+            def __enter__(self):
+                return enter()
+
+            @staticmethod
+            def __exit__(et, ev, tb):
+                return leave(et, ev, tb)
+
+        class AsyncStatic:
+            async def __aenter__(self):
+                return enter()
+
+            @staticmethod
+            async def __aexit__(et, ev, tb):
+                return leave(et, ev, tb)
+
+        class SyncClass:
+            def __enter__(self):
+                return enter()
+
+            @classmethod
+            def __exit__(cls, et, ev, tb):
+                return leave(et, ev, tb)
+
+        class AsyncClass:
+            async def __aenter__(self):
+                return enter()
+
+            @classmethod
+            async def __aexit__(cls, et, ev, tb):
+                return leave(et, ev, tb)
+
+        bind = case.get("bind", "method")
+        if bind == "static":
+            return SyncStatic() if fl == "def" else AsyncStatic()
+        if bind == "class":
+            return SyncClass() if fl == "def" else AsyncClass()
         return SyncCM() if fl == "def" else AsyncCM()
 
     def execute(fvec):
@@ -290,6 +330,10 @@ def run_exitstack(case, stats):
                             r = stack.push(fn)
                             if case.get("dup"):
                                 r = stack.push(fn)
+                        elif case.get("noargs"):
+                            r = stack.callback(fn)
+                            if case.get("dup"):
+                                r = stack.callback(fn)
                         else:
                             r = stack.callback(fn, "arg", kw=i)
                             if case.get("dup"):
